@@ -5,6 +5,16 @@
    ring, for Z, for R, and for the binary64 instance the bit-exact tie runs); the
    theorems of the last block assume the ring laws.
 
+   INTEGER WIDTHS.  The model evaluates every integer expression from which the C
+   computes an array offset with the C's type: a_uint is 32 bit (wrap32), a_size is
+   64 bit (wrap64); see the header of LinalgDefs.v for the list of sites.  A routine
+   whose model contains such an expression has the hypothesis `U32 d` (d < 2^32,
+   LinalgSpec.v) for each dimension d that enters one: these are exactly the values an
+   a_uint parameter can hold, so the hypothesis excludes no call the C can receive, and
+   the theorems PROVE that none of the offset computations wraps.  Routines that only
+   move cursors ( *E++, A += n ) and count with loop-guarded counters have no such
+   hypothesis.  (C09/LinalgExamples.v: U32 holds of every N below 2^32 and fails at 2^32.)
+
    Reading a statement:  `f ... b0 = Ok b`  says the model terminated without running
    out of fuel and without any out-of-bounds read or write (every access of the model
    is bounds-checked against the arrays it was given: the result array has exactly
@@ -16,14 +26,14 @@
 From Coq Require Import List Arith ZArith Reals.
 From Coq Require Import Ring_theory.
 From LibaV Require Import C09.LinalgDefs C09.LinalgSpec C09.LinalgPatProofs C09.LinalgTProofs
-     C09.LinalgMulProofs C09.LinalgRing.
+     C09.LinalgMulProofs C09.LinalgRing C09.LinalgWide C09.LinalgWideProofs.
 From LibaV Require C09.LinalgExamples.   (* non-vacuity examples: built and checked with this file *)
 
 (* ---------------------------------------------------------------- products *)
 
 Theorem C09_mulmm_spec :
   forall (T : Type) (zero : T) (add mul : T -> T -> T) (row c_r col : nat) (X Y : list T),
-    length X = row * c_r -> length Y = c_r * col ->
+    length X = row * c_r -> length Y = c_r * col -> U32 row -> U32 col ->
     forall b0 : buf T, length (cells b0) = row * col ->
     exists b, mulmm T zero add mul row c_r col X Y b0 = Ok b /\
       nwr b = nwr b0 + row * col + row * c_r * col /\ length (cells b) = row * col /\
@@ -35,7 +45,7 @@ Print Assumptions C09_mulmm_spec.
 
 Theorem C09_mulTm_spec :
   forall (T : Type) (zero : T) (add mul : T -> T -> T) (c_r row col : nat) (X Y : list T),
-    length X = c_r * row -> length Y = c_r * col ->
+    length X = c_r * row -> length Y = c_r * col -> U32 row -> U32 col ->
     forall b0 : buf T, length (cells b0) = row * col ->
     exists b, mulTm T zero add mul c_r row col X Y b0 = Ok b /\
       nwr b = nwr b0 + row * col + c_r * row * col /\ length (cells b) = row * col /\
@@ -47,7 +57,7 @@ Print Assumptions C09_mulTm_spec.
 
 Theorem C09_mulmT_spec :
   forall (T : Type) (zero : T) (add mul : T -> T -> T) (row col c_r : nat) (X Y : list T),
-    length X = row * c_r -> length Y = col * c_r ->
+    length X = row * c_r -> length Y = col * c_r -> U32 row -> U32 col -> U32 c_r ->
     forall b0 : buf T, length (cells b0) = row * col ->
     exists b, mulmT T zero add mul row col c_r X Y b0 = Ok b /\
       nwr b = nwr b0 + row * col + row * col * c_r /\ length (cells b) = row * col /\
@@ -59,7 +69,7 @@ Print Assumptions C09_mulmT_spec.
 
 Theorem C09_mulTT_spec :
   forall (T : Type) (zero : T) (add mul : T -> T -> T) (row c_r col : nat) (X Y : list T),
-    length X = c_r * row -> length Y = col * c_r ->
+    length X = c_r * row -> length Y = col * c_r -> U32 row -> U32 c_r -> U32 col ->
     forall b0 : buf T, length (cells b0) = row * col ->
     exists b, mulTT T zero add mul row c_r col X Y b0 = Ok b /\
       nwr b = nwr b0 + row * col + c_r * row * col /\ length (cells b) = row * col /\
@@ -73,7 +83,7 @@ Print Assumptions C09_mulTT_spec.
 
 Theorem C09_T2_spec :
   forall (T : Type) (zero : T) (m n : nat) (A : list T) (b0 : buf T),
-    length A = m * n -> length (cells b0) = n * m ->
+    U32 m -> U32 n -> length A = m * n -> length (cells b0) = n * m ->
     exists b, T2 T m n A b0 = Ok b /\ nwr b = nwr b0 + n * m /\ length (cells b) = n * m /\
       forall r c, r < m -> c < n -> ent T zero m (cells b) c r = ent T zero n A r c.
 Proof. exact T2_ok. Qed.
@@ -82,7 +92,7 @@ Print Assumptions C09_T2_spec.
 (* in place: n*(n-1) stores (two per exchanged pair), written nwr b + n = nwr b0 + n*n *)
 Theorem C09_T1_spec :
   forall (T : Type) (zero : T) (n : nat) (b0 : buf T),
-    length (cells b0) = n * n ->
+    U32 n -> length (cells b0) = n * n ->
     exists b, T1 T n b0 = Ok b /\ nwr b + n = nwr b0 + n * n /\ length (cells b) = n * n /\
       forall r c, r < n -> c < n -> ent T zero n (cells b) r c = ent T zero n (cells b0) c r.
 Proof. exact T1_ok. Qed.
@@ -91,14 +101,14 @@ Print Assumptions C09_T1_spec.
 (* (zero is only the default element of nth inside the proof; it does not occur in the statement) *)
 Theorem C09_T2_involutive :
   forall (T : Type) (zero : T) (m n : nat) (A : list T) (b0 b1 : buf T),
-    length A = m * n -> length (cells b0) = n * m -> length (cells b1) = m * n ->
+    U32 m -> U32 n -> length A = m * n -> length (cells b0) = n * m -> length (cells b1) = m * n ->
     exists t u, T2 T m n A b0 = Ok t /\ T2 T n m (cells t) b1 = Ok u /\ cells u = A.
 Proof. exact T2_involutive. Qed.
 Print Assumptions C09_T2_involutive.
 
 Theorem C09_T1_involutive :
   forall (T : Type) (zero : T) (n : nat) (b0 : buf T),
-    length (cells b0) = n * n ->
+    U32 n -> length (cells b0) = n * n ->
     exists b1 b2, T1 T n b0 = Ok b1 /\ T1 T n b1 = Ok b2 /\ cells b2 = cells b0.
 Proof. exact T1_involutive. Qed.
 Print Assumptions C09_T1_involutive.
@@ -106,7 +116,7 @@ Print Assumptions C09_T1_involutive.
 (* on square matrices the two transposes agree *)
 Theorem C09_T1_T2_agree :
   forall (T : Type) (zero : T) (n : nat) (A : list T) (w : nat) (b0 : buf T),
-    length A = n * n -> length (cells b0) = n * n ->
+    U32 n -> length A = n * n -> length (cells b0) = n * n ->
     exists b1 b2, T1 T n (mkbuf A w) = Ok b1 /\ T2 T n n A b0 = Ok b2 /\ cells b1 = cells b2.
 Proof. exact T1_T2_agree. Qed.
 Print Assumptions C09_T1_T2_agree.
@@ -147,7 +157,7 @@ Print Assumptions C09_tri2_spec.
 
 Theorem C09_diag_spec :
   forall (T : Type) (zero : T) (n : nat) (a : list T) (b0 : buf T),
-    length a = n -> length (cells b0) = n * n ->
+    U32 n -> length a = n -> length (cells b0) = n * n ->
     exists b, diag T zero n a b0 = Ok b /\ nwr b = nwr b0 + n * n /\ length (cells b) = n * n /\
       forall r c, r < n -> c < n ->
         ent T zero n (cells b) r c = if r =? c then nth r a zero else zero.
@@ -156,7 +166,7 @@ Print Assumptions C09_diag_spec.
 
 Theorem C09_diag1_spec :
   forall (T : Type) (zero : T) (n : nat) (A : list T) (b0 : buf T),
-    length A = n * n -> length (cells b0) = n ->
+    U32 n -> length A = n * n -> length (cells b0) = n ->
     exists b, diag1 T n A b0 = Ok b /\ nwr b = nwr b0 + n /\ length (cells b) = n /\
       forall i, i < n -> nth i (cells b) zero = ent T zero n A i i.
 Proof. exact diag1_ok. Qed.
@@ -164,7 +174,7 @@ Print Assumptions C09_diag1_spec.
 
 Theorem C09_diag2_spec :
   forall (T : Type) (zero : T) (m n : nat) (A : list T) (b0 : buf T),
-    length A = m * n -> length (cells b0) = Nat.min m n ->
+    U32 n -> length A = m * n -> length (cells b0) = Nat.min m n ->
     exists b, diag2 T m n A b0 = Ok b /\ nwr b = nwr b0 + Nat.min m n /\
       length (cells b) = Nat.min m n /\
       forall i, i < Nat.min m n -> nth i (cells b) zero = ent T zero n A i i.
@@ -234,7 +244,7 @@ Print Assumptions C09_triU2_spec.
 Theorem C09_mulTm_is_mulmm_of_transposed :
   forall (T : Type) (zero : T) (add mul : T -> T -> T) (c_r row col : nat) (X Y : list T)
          (bt b0 b1 : buf T),
-    length X = c_r * row -> length Y = c_r * col ->
+    U32 c_r -> U32 row -> U32 col -> length X = c_r * row -> length Y = c_r * col ->
     length (cells bt) = row * c_r -> length (cells b0) = row * col -> length (cells b1) = row * col ->
     exists xt z1 z2,
       T2 T c_r row X bt = Ok xt /\
@@ -247,7 +257,7 @@ Print Assumptions C09_mulTm_is_mulmm_of_transposed.
 Theorem C09_mulmT_is_mulmm_of_transposed :
   forall (T : Type) (zero : T) (add mul : T -> T -> T) (row col c_r : nat) (X Y : list T)
          (bt b0 b1 : buf T),
-    length X = row * c_r -> length Y = col * c_r ->
+    U32 row -> U32 col -> U32 c_r -> length X = row * c_r -> length Y = col * c_r ->
     length (cells bt) = c_r * col -> length (cells b0) = row * col -> length (cells b1) = row * col ->
     exists yt z1 z2,
       T2 T col c_r Y bt = Ok yt /\
@@ -260,7 +270,7 @@ Print Assumptions C09_mulmT_is_mulmm_of_transposed.
 Theorem C09_mulTT_is_mulmm_of_transposed :
   forall (T : Type) (zero : T) (add mul : T -> T -> T) (row c_r col : nat) (X Y : list T)
          (btx bty b0 b1 : buf T),
-    length X = c_r * row -> length Y = col * c_r ->
+    U32 row -> U32 c_r -> U32 col -> length X = c_r * row -> length Y = col * c_r ->
     length (cells btx) = row * c_r -> length (cells bty) = c_r * col ->
     length (cells b0) = row * col -> length (cells b1) = row * col ->
     exists xt yt z1 z2,
@@ -287,7 +297,7 @@ Theorem C09_mul_transpose :
   forall (T : Type) (zero one : T) (add mul sub : T -> T -> T) (opp : T -> T),
     ring_theory zero one add mul sub opp (@eq T) ->
     forall (row c_r col : nat) (X Y : list T) (b0 b1 b2 : buf T),
-      length X = c_r * row -> length Y = col * c_r ->
+      U32 row -> U32 c_r -> U32 col -> length X = c_r * row -> length Y = col * c_r ->
       length (cells b0) = row * col -> length (cells b1) = col * row -> length (cells b2) = row * col ->
       exists z1 p z2,
         mulTT T zero add mul row c_r col X Y b0 = Ok z1 /\
@@ -302,7 +312,7 @@ Theorem C09_eye_left_unit :
   forall (T : Type) (zero one : T) (add mul sub : T -> T -> T) (opp : T -> T),
     ring_theory zero one add mul sub opp (@eq T) ->
     forall (n col : nat) (Y : list T) (be b0 : buf T),
-      length Y = n * col -> length (cells be) = n * n -> length (cells b0) = n * col ->
+      U32 n -> U32 col -> length Y = n * col -> length (cells be) = n * n -> length (cells b0) = n * col ->
       exists e z, eye1 T zero one n be = Ok e /\
                   mulmm T zero add mul n n col (cells e) Y b0 = Ok z /\ cells z = Y.
 Proof. exact mulmm_eye_l. Qed.
@@ -312,7 +322,7 @@ Theorem C09_eye_right_unit :
   forall (T : Type) (zero one : T) (add mul sub : T -> T -> T) (opp : T -> T),
     ring_theory zero one add mul sub opp (@eq T) ->
     forall (row n : nat) (X : list T) (be b0 : buf T),
-      length X = row * n -> length (cells be) = n * n -> length (cells b0) = row * n ->
+      U32 row -> U32 n -> length X = row * n -> length (cells be) = n * n -> length (cells b0) = row * n ->
       exists e z, eye1 T zero one n be = Ok e /\
                   mulmm T zero add mul row n n X (cells e) b0 = Ok z /\ cells z = X.
 Proof. exact mulmm_eye_r. Qed.
@@ -322,7 +332,7 @@ Print Assumptions C09_eye_right_unit.
 
 Theorem C09_mul_transpose_Z :
   forall (row c_r col : nat) (X Y : list Z) (b0 b1 b2 : buf Z),
-    length X = c_r * row -> length Y = col * c_r ->
+    U32 row -> U32 c_r -> U32 col -> length X = c_r * row -> length Y = col * c_r ->
     length (cells b0) = row * col -> length (cells b1) = col * row -> length (cells b2) = row * col ->
     exists z1 p z2,
       mulTT Z 0%Z Z.add Z.mul row c_r col X Y b0 = Ok z1 /\
@@ -334,7 +344,7 @@ Print Assumptions C09_mul_transpose_Z.
 
 Theorem C09_eye_left_unit_Z :
   forall (n col : nat) (Y : list Z) (be b0 : buf Z),
-    length Y = n * col -> length (cells be) = n * n -> length (cells b0) = n * col ->
+    U32 n -> U32 col -> length Y = n * col -> length (cells be) = n * n -> length (cells b0) = n * col ->
     exists e z, eye1 Z 0%Z 1%Z n be = Ok e /\
                 mulmm Z 0%Z Z.add Z.mul n n col (cells e) Y b0 = Ok z /\ cells z = Y.
 Proof. exact (mulmm_eye_l Z 0%Z 1%Z Z.add Z.mul Z.sub Z.opp Z_ring). Qed.
@@ -342,7 +352,7 @@ Print Assumptions C09_eye_left_unit_Z.
 
 Theorem C09_mul_transpose_R :
   forall (row c_r col : nat) (X Y : list R) (b0 b1 b2 : buf R),
-    length X = c_r * row -> length Y = col * c_r ->
+    U32 row -> U32 c_r -> U32 col -> length X = c_r * row -> length Y = col * c_r ->
     length (cells b0) = row * col -> length (cells b1) = col * row -> length (cells b2) = row * col ->
     exists z1 p z2,
       mulTT R 0%R Rplus Rmult row c_r col X Y b0 = Ok z1 /\
@@ -355,10 +365,84 @@ Print Assumptions C09_mul_transpose_R.
 (* over R every entry of mulmm is the standard library's finite sum (inner dimension k+1 >= 1) *)
 Theorem C09_mulmm_R_sum_f_R0 :
   forall (row k col : nat) (X Y : list R) (b0 : buf R),
-    length X = row * S k -> length Y = S k * col -> length (cells b0) = row * col ->
+    U32 row -> U32 col -> length X = row * S k -> length Y = S k * col -> length (cells b0) = row * col ->
     exists b, mulmm R 0%R Rplus Rmult row (S k) col X Y b0 = Ok b /\
       forall i j, i < row -> j < col ->
         ent R 0%R col (cells b) i j =
         sum_f_R0 (fun t => (ent R 0%R (S k) X i t * ent R 0%R col Y t j)%R) k.
 Proof. exact mulmm_R_sum_f_R0. Qed.
 Print Assumptions C09_mulmm_R_sum_f_R0.
+
+(* ------------------------------------- offset width: the N-indexed model of diag1/diag2 *)
+(* LinalgWide.v models a_real_diag1 / a_real_diag2 a second time with binary offsets and a sparse
+   input array, so that the correspondence check can run them on matrices of 2^32 and more cells
+   (where a 32-bit offset computation would go wrong).  The theorems tie that model to the list
+   model and to the specification. *)
+
+(* for ALL n, i - wrapping ones included - the list model reads the cell the wide model reads *)
+Theorem C09_diag_offset_same_in_both_models :
+  forall n i : nat, sz_mul (sz_add n 1) i = N.to_nat (diag_offN (N.of_nat n) (N.of_nat i)).
+Proof. exact diag_off_bridge. Qed.
+Print Assumptions C09_diag_offset_same_in_both_models.
+
+Theorem C09_amin_same_in_both_models :
+  forall m n : nat, amin m n = N.to_nat (aminN (N.of_nat m) (N.of_nat n)).
+Proof. exact amin_bridge. Qed.
+Print Assumptions C09_amin_same_in_both_models.
+
+(* the 64-bit offset (a_size)(n+1) * i never wraps for an a_uint n and i <= n: it is the diagonal index *)
+Theorem C09_diag_offset_does_not_wrap :
+  forall n i : N, (n < 4294967296)%N -> (i <= n)%N -> diag_offN n i = (i * n + i)%N.
+Proof. exact diag_offN_id. Qed.
+Print Assumptions C09_diag_offset_does_not_wrap.
+
+(* ... while the same expression in 32 bits does (n = 65537, i = 65535: reads cell 65534) *)
+Theorem C09_diag_offset_32bit_would_wrap :
+  let n := 65537%N in let i := 65535%N in
+  (n < 4294967296)%N /\ (i < n)%N /\
+  diag_offN n i = 4295032830%N /\ wrap32N (wrap32N (n + 1) * i) = 65534%N.
+Proof. exact diag_off_32bit_wraps. Qed.
+Print Assumptions C09_diag_offset_32bit_would_wrap.
+
+(* the wide model: every cell of a written once, a[i] = A[i*n+i], no access out of bounds *)
+Theorem C09_diag1_wide_spec :
+  forall (T : Type) (zero : T) (n : N) (A : sparse T),
+    (n < 4294967296)%N -> slen A = (n * n)%N ->
+    diag1N T zero n A n = Ok (diag_cells T zero n A (N.to_nat n)).
+Proof. exact diag1N_ok. Qed.
+Print Assumptions C09_diag1_wide_spec.
+
+Theorem C09_diag2_wide_spec :
+  forall (T : Type) (zero : T) (m n : N) (A : sparse T),
+    (n < 4294967296)%N -> slen A = (m * n)%N ->
+    diag2N T zero m n A (N.min m n) = Ok (diag_cells T zero n A (N.to_nat (N.min m n))).
+Proof. exact diag2N_ok. Qed.
+Print Assumptions C09_diag2_wide_spec.
+
+Theorem C09_diag_cells_nth :
+  forall (T : Type) (zero : T) (n : N) (A : sparse T) (k i : nat) (d : N * T), i < k ->
+    length (diag_cells T zero n A k) = k /\
+    nth i (diag_cells T zero n A k) d =
+    (N.of_nat i, lookup T zero (scells A) (N.of_nat i * n + N.of_nat i)%N).
+Proof. exact diag_cells_read. Qed.
+Print Assumptions C09_diag_cells_nth.
+
+(* on an array both models can hold, they return the same cells *)
+Theorem C09_diag1_models_agree :
+  forall (T : Type) (zero : T) (n : nat) (A : list T) (S : sparse T) (b0 : buf T),
+    U32 n -> length A = n * n -> length (cells b0) = n -> represents zero S A ->
+    exists b w, diag1 T n A b0 = Ok b /\ diag1N T zero (N.of_nat n) S (N.of_nat n) = Ok w /\
+      length w = n /\
+      forall i, i < n -> nth i w (0%N, zero) = (N.of_nat i, nth i (cells b) zero).
+Proof. exact diag1_models_agree. Qed.
+Print Assumptions C09_diag1_models_agree.
+
+Theorem C09_diag2_models_agree :
+  forall (T : Type) (zero : T) (m n : nat) (A : list T) (S : sparse T) (b0 : buf T),
+    U32 n -> length A = m * n -> length (cells b0) = Nat.min m n -> represents zero S A ->
+    exists b w, diag2 T m n A b0 = Ok b /\
+      diag2N T zero (N.of_nat m) (N.of_nat n) S (N.of_nat (Nat.min m n)) = Ok w /\
+      length w = Nat.min m n /\
+      forall i, i < Nat.min m n -> nth i w (0%N, zero) = (N.of_nat i, nth i (cells b) zero).
+Proof. exact diag2_models_agree. Qed.
+Print Assumptions C09_diag2_models_agree.
